@@ -3,8 +3,15 @@
     comments of the dispatch tables in coq/Driver*.v, so these files are the single registry.
     Per-property tables live in DriverCxx.v ([dispatch_cxx : Z -> val -> option val], None for
     an id they do not own) and are chained in [dispatch] below. *)
-From SE Require Import Base Codecs Fat Stream Transcode Cue Names AkaiImage Container StreamProofs DriverBase.
+From SE Require Import Base Codecs Fat Stream Transcode Cue Names AkaiImage CddaImage Container StreamProofs DriverBase.
 From SE Require DriverC20 DriverC04 DriverC19 DriverC02 DriverC15 DriverC14.
+
+(** CDDA whole-image model (CddaImage.v): a routed result is (0 bin-name) for a sheet handed to
+    the sampler readers, (1 payload) for a CDDA image; a plan file is (path rate channels off len) *)
+Definition vrouted {A} (f : A -> val) (r : routed A) : val :=
+  match r with ToSampler b => VL [VI 0; vlistZ b] | ToCdda x => VL [VI 1; f x] end.
+Definition vplan (p : planfile) : val :=
+  VL [VL (map vlistZ (pf_path p)); VI (pf_rate p); VI (pf_channels p); VI (pf_off p); VI (pf_len p)].
 
 Definition dispatch_core (id : Z) (a : val) : option val :=
   Some (
@@ -74,6 +81,14 @@ Definition dispatch_core (id : Z) (a : val) : option val :=
       vres (fun l => VL (map (fun p => VL [vlistZ (fst p);
                  VL (map (fun v => VL [vlistZ (fst v); VL (map vlistZ (snd v))]) (snd p))]) l))
            (akai_listing (unimg a))
+  | 640 (* cdda_export *) =>
+      vres (fun l => VL (map vwav l)) (cdda_export (unlines (nth_arg a 0)) (unVLZ (nth_arg a 1)))
+  | 641 (* cdda_export_plan *) =>
+      vres (vrouted (fun l => VL (map vplan l))) (cue_export_plan (unlines (nth_arg a 0)) (unVI (nth_arg a 1)))
+  | 642 (* cdda_listing *) =>
+      vres (vrouted vnames) (cdda_listing (unlines (nth_arg a 0)) (unVI (nth_arg a 1)))
+  | 643 (* cue_export *) =>
+      vres (vrouted (fun l => VL (map vwav l))) (cue_export (unlines (nth_arg a 0)) (unVLZ (nth_arg a 1)))
   | 630 (* detect_container *) =>
       VI (match detect (unVLZ a) with CMdf => 1 | CMdx => 2 | CRaw => 0 end)
   | 631 (* wrap_2352 *) => vlistZ (wrap_2352 (unVLZ a))
